@@ -311,9 +311,13 @@ def reach_ps(g: CFG, srcs, avoid=frozenset(), edge_ok=None, track: set[str] | No
     it, `v is None` / `v is not None` / `v` tests prune the infeasible edge.  (Needed after helpers were inlined with a
     result variable: `pack = None; ...; if pack is not None:`.)"""
     track = none_flag_vars(g) if track is None else track
-    if not track:
+    # one-trip loops written by sa/deextract.py (`for _once in (None,):`): the body runs exactly once, so the loop cannot be left by
+    # exhaustion before it was entered.  One more state slot per such loop: "F" (fresh: initialised, body not entered yet) / "-".
+    once = sorted(i for i, n in g.nodes.items() if n.kind == "for_iter" and isinstance(n.ast.target, ast.Name) and n.ast.target.id == "_once")
+    if not track and not once:
         return reach(g, srcs, avoid=avoid, include_srcs=True, edge_ok=edge_ok)
-    names = sorted(track)
+    once_init = {i: [j for j in once if g.nodes[j].ast is n.ast] for i, n in g.nodes.items() if n.kind == "for_init"}
+    names = sorted(track) + [f"#once{j}" for j in once]
     idx = {v: k for k, v in enumerate(names)}
     avoid = set(avoid)
 
@@ -321,6 +325,11 @@ def reach_ps(g: CFG, srcs, avoid=frozenset(), edge_ok=None, track: set[str] | No
         if node.id in avoid:
             return None
         a = node.ast
+        if node.kind == "for_init" and once_init.get(node.id):
+            st = list(st)
+            for j in once_init[node.id]:
+                st[idx[f"#once{j}"]] = "F"
+            st = tuple(st)
         if node.kind == "stmt" and isinstance(a, (ast.Assign, ast.AnnAssign)) and getattr(a, "value", None) is not None:
             tgts = a.targets if isinstance(a, ast.Assign) else [a.target]
             st = list(st)
@@ -346,6 +355,14 @@ def reach_ps(g: CFG, srcs, avoid=frozenset(), edge_ok=None, track: set[str] | No
     def edge_fn(node, st, label, succ):
         if edge_ok is not None and not edge_ok(node.id, succ, label):
             return None
+        if node.id in once and label in ("true", "false"):
+            k = idx[f"#once{node.id}"]
+            if label == "false" and st[k] == "F":
+                return None                      # exhausted before the single trip was made: infeasible
+            if label == "true":
+                st = list(st)
+                st[k] = "-"
+                st = tuple(st)
         if node.kind == "test" and label in ("true", "false"):
             e = node.ast
             v = pol = None
